@@ -143,7 +143,7 @@ func generate(o *hx.Opts) []*dirIn {
 	add("order", []entryIn{probe("2 -ok", 0o644), probe("20-oka", 0o755), probe("19-okb", 0o755), probe("21-ok0", 0o755)}, nil)
 
 	// ---- rand
-	for i, n := 0, o.N(60, 900); i < n; i++ {
+	for i, n := 0, o.N(200, 2500); i < n; i++ {
 		out = append(out, randomDir(rand.New(rand.NewSource(r.Int63())), "rand"))
 	}
 
